@@ -371,7 +371,9 @@ PROPS["C08"] = _cw1_prop("C08", 1, C08_CLAUSES, "stored allowances",
     "Axiom-free Coq theorems: an accepted subkey Execute deducts every coin of every bank send exactly, per denomination and "
     "cumulatively, only from a stored unexpired allowance, and touches nobody else's; increase/decrease act only by admins "
     "on the named subkey (expired allowance restarts from zero, decrease saturates); over every history from every "
-    "instantiation spent + remaining <= granted per subkey and denomination (ghost sums, induction). Tie to the Rust: S_C08 "
+    "instantiation spent + remaining <= granted per subkey and denomination (ghost sums, induction); the step contract S_C08 "
+    "itself (all 13 clauses) is proved never to fire on the model's own transitions (c08_contract_never_fires_on_model; the "
+    "same for S_C07, S_C16, S_C17), so a reported clause is always a difference from the proved behaviour. Tie to the Rust: S_C08 "
     "on every implementation step + equality of the stored allowance tables (measured).")
 PROPS["C16"] = _cw1_prop("C16", 2, C16_CLAUSES, "CanExecute answer vs acceptance of the following Execute",
     "Axiom-free Coq theorem for EVERY state of either proxy, block, sender and message: can_execute = acceptance of "
